@@ -91,10 +91,11 @@ def wrap(v, ct):
 
 
 class Eval:
-    def __init__(self, env=None, call=None, deref=None, max_steps=20000):
+    def __init__(self, env=None, call=None, deref=None, max_steps=20000, node_hook=None):
         self.env = dict(env or {})       # decl id -> value
         self.call = call                 # f(name, [values], node) -> value
         self.deref = deref               # f(address, node) -> value
+        self.node_hook = node_hook       # f(node, evaluator) -> value or NotImplemented (checked first)
         self.steps = 0
         self.max_steps = max_steps
 
@@ -122,6 +123,10 @@ class Eval:
             raise Unknown("step bound exceeded", n)
         k = n.get("kind")
         ks = A.kids(n)
+        if self.node_hook is not None:
+            r = self.node_hook(n, self)
+            if r is not NotImplemented:
+                return r
         if k in ("ParenExpr", "ExprWithCleanups", "ConstantExpr", "MaterializeTemporaryExpr", "CXXBindTemporaryExpr"):
             return self.ev(ks[0])
         if k in ("ImplicitCastExpr", "CStyleCastExpr", "CXXStaticCastExpr", "CXXFunctionalCastExpr", "CXXReinterpretCastExpr", "CXXConstCastExpr"):
